@@ -9,13 +9,16 @@ import GorumsV.Generated.Exprs
 namespace GorumsV.Tie.C05
 open GorumsV.GoE GorumsV
 
-def envR (streaming : Bool) : Env := envOf [("router.streaming", .bool streaming)]
+def envR (streaming isErr : Bool) : Env :=
+  envOf [("router.streaming", .bool streaming), ("resp.err", if isErr then .ref 1 else .nil)]
 
-/-- both delivery paths delete the router iff it is not a streaming one (as `Chan.route` / `Chan.cancelAll`) -/
-theorem delGuard_good (streaming : Bool) :
-    ev (envR streaming) Generated.ch_routeResponse_delGuard = .bool (!streaming) ∧
-    ev (envR streaming) Generated.ch_cancelPendingMsgs_delGuard = .bool (!streaming) := by
-  cases streaming <;> simp [Generated.ch_routeResponse_delGuard, Generated.ch_cancelPendingMsgs_delGuard, ev, envR, envOf, vnot]
+/-- `routeResponse` deletes the router unless it is a streaming one and the response is not an error;
+    `cancelPendingMsgs` deletes every router (as `Chan.route` / `Chan.cancelAll`) -/
+theorem delGuard_good (streaming isErr : Bool) :
+    ev (envR streaming isErr) Generated.ch_routeResponse_delGuard = .bool (!(streaming && !isErr)) ∧
+    ev (envR streaming isErr) Generated.ch_cancelPendingMsgs_delGuard = .bool true := by
+  cases streaming <;> cases isErr <;>
+    simp [Generated.ch_routeResponse_delGuard, Generated.ch_cancelPendingMsgs_delGuard, ev, envR, envOf, vnot, veq]
 
 end GorumsV.Tie.C05
 
@@ -32,6 +35,11 @@ open GorumsV.Tie.C05 GorumsV.C05
 #print axioms routers_bounded
 #print axioms deleteRouter_removes
 #print axioms streamDown_answers_all
+#print axioms replaceCancel_answers_written
+#print axioms error_is_last
+#print axioms at_most_one_error
+#print axioms no_router_after_error
+#print axioms pinned_streaming_router_reports_twice
 #print axioms sent_in_handoff_order
 #print axioms popped_prefix_of_pushed
 end Audit
